@@ -372,3 +372,18 @@ _MORE6 = {
 }
 for _k, _v in _MORE6.items():
     CONFIG[_k]["rule"] += _v
+
+# Extensions that came out of the seventh round of seeded changes.
+_MORE7 = {
+    "C01": " float32/<Name>: Sma, Ema, Rma, Wma, MovingSum, MovingMax, MovingMin, Trima, Tema, Macd and Trix instantiated with float32 on dyadic series, against the same references with the error bound scaled to float32.",
+    "C06": " GoldenCross: the smoothing constants of both EMAs are float parameters (equal periods allowed).",
+    "C07": " A fifth of the scripted leaves of a nested expression end their action stream 1-8 actions early; a group then ends with its shortest member.",
+    "C10": " Subject sql/max-dialect: the same driver with SELECT MAX(date) semantics for the last date. A sixth of the appends to the in-memory and file-system repositories are back-fills (older days after newer ones).",
+    "C11": " (slow reader: 16 s / 61 s.)",
+    "C12": " A child program that is asleep and consumes no CPU time for 30 s is killed and reported as never exiting.",
+    "C13": " A sixth of the cases name 2-8 assets the repository does not have (skipped by the backtest; race detector on). Child programs as in C12.",
+    "C15": " One case in eight has a third of its bars 1-3 units in the last place wide; the rounding allowance of a range check is the reference error bound where that exceeds 1e-9.",
+    "C19": " (slow body: 16 s / 61 s.)",
+}
+for _k, _v in _MORE7.items():
+    CONFIG[_k]["rule"] += _v
